@@ -1183,6 +1183,13 @@ def rule_pipeline_simulation(ctx, R: str, title: str = None):
 
 
 # ------------------------------------- multi-subgraph pipeline: independence
+def _stage_why(stage, outs):
+  """'refused ...' when the stage raises on its only path (a decided refusal), 'undecided ...' otherwise."""
+  if len(outs) == 1 and outs[0].kind == 'raise':
+    return f'refused in {stage}: {outs[0].exc} {outs[0].msg[:100]} (line {outs[0].line})'
+  return f'undecided in {stage}: {[(x.short()[:120], x.msg[:80], x.line) for x in outs]}'
+
+
 def _pipeline_multi(ctx, R, graphs, rules):
   """Runs calibrate (one signature per subgraph, in order) -> plan ->
   instructions -> rewrite on a label model made of `graphs`. Returns
@@ -1296,32 +1303,41 @@ def _pipeline_multi(ctx, R, graphs, rules):
       'schema_py_generated.TensorT': lambda a, k: Obj('x:TensorT', {'name': None, 'shape': None, 'type': None, 'buffer': None, 'quantization': None}),
       'schema_py_generated.OperatorCodeT': lambda a, k: Obj('x:OperatorCodeT', {'builtinCode': None}),
       'schema_py_generated.QuantizationParametersT': lambda a, k: Obj('x:QuantizationParametersT', {'scale': None, 'zeroPoint': None, 'quantizedDimension': 0}),
+      'schema_py_generated.BufferT': lambda a, k: Obj('x:BufferT', {'data': None, 'offset': 0, 'size': 0}),
   }
+  for optn in ('ReshapeOptionsT', 'BatchMatMulOptionsT', 'MulOptionsT', 'ReducerOptionsT', 'AddOptionsT'):
+    hooks[f'schema_py_generated.{optn}'] = lambda a, k: Obj('x:Options', {})
   it = absint.Interp(ctx.repo, ctx.ev, hooks=hooks)
   store = {}
   for rx, kind, cfg in rules:
     opn = OP[KIND[kind]] if kind in KIND else OP[kind if kind != '*' else 'ALL_SUPPORTED']
+    if cfg == 'block':
+      G = {e.name: e for e in tables.enum(ctx, 'qtyping:QuantGranularity')}
+      block = tables.construct(ctx, common.OPCFG, weight_tensor_config=tables.tensor_config(ctx, num_bits=4, granularity=G['BLOCKWISE'], block_size=2),
+                               compute_precision=CP['FLOAT'], explicit_dequantize=True, skip_checks=True)
+      store.setdefault(rx, []).append(c11._recipe(rx, opn, MM, block))  # pylint: disable=protected-access
+      continue
     store.setdefault(rx, []).append(c11._recipe(rx, opn, MM, {'srq': srq, 'drq': drq, 'wonly': wonly}[cfg]))  # pylint: disable=protected-access
   rm = Obj('recipe_manager:RecipeManager', {'_scope_configs': store})
   calo = Obj(CAL, {'_flatbuffer_model': model(), '_tfl_interpreter': interp, '_tensor_content_map': {}, '_model_qsvs': {}, '_cached_output': []})
   for gi in range(len(graphs)):
     o1 = it.outcomes(cal, [calo, [{'k': 1}, {'k': 2}], rm, f's{gi}'], copy_args=False)
     if len(o1) != 1 or o1[0].kind != 'return':
-      return None, f'calibrate(signature of subgraph {gi}): {[x.short()[:120] for x in o1]}'
+      return None, _stage_why(f'calibrate(signature of subgraph {gi})', o1)
   m = model()
   b2t = it.outcomes(ctx.repo.func('utils.tfl_flatbuffer_utils:buffer_to_tensors'), [m], copy_args=False)
   pg = Obj(PG, {'flatbuffer_model': model(), 'model_quant_results': {}, 'buffer_to_tensors': b2t[0].value if len(b2t) == 1 and b2t[0].kind == 'return' else {}})
   o2 = it.outcomes(gen, [pg, rm, calo.fields['_model_qsvs']], copy_args=False)
   if len(o2) != 1 or o2[0].kind != 'return':
-    return None, f'plan generation: {[x.short()[:160] for x in o2]}'
+    return None, _stage_why('plan generation', o2)
   tig = Obj(TIG, {'TensorGraphInfo': c19._Ctor(f'{TIG}.TensorGraphInfo', ['tensor_id', 'subgraph_id', 'producer', 'consumers']), 'flatbuffer_model': None, '_tensor_name_to_graph_info': {}})  # pylint: disable=protected-access
   o3 = it.outcomes(q2i, [tig, pg.fields['model_quant_results'], m], copy_args=False)
   if len(o3) != 1 or o3[0].kind != 'return':
-    return None, f'instruction generation: {[x.short()[:160] for x in o3]}'
+    return None, _stage_why('instruction generation', o3)
   perf = it.construct(PERF, [], {}, None, 0)
   o4 = it.outcomes(tg, [perf, o3[0].value, m], copy_args=False)
   if len(o4) != 1 or o4[0].kind != 'return':
-    return None, f'graph rewrite: {[x.short()[:160] for x in o4]}'
+    return None, _stage_why('graph rewrite', o4)
   return m, None
 
 
@@ -1397,6 +1413,230 @@ def rule_subgraph_independence(ctx, R: str):
           pairs = [(a, b) for a, b in zip(want[k], got[k]) if a != b] if isinstance(want[k], list) and len(want[k]) == len(got[k]) else [(want[k], got[k])]
           detail = f'{k}: alone {pairs[0][0]!r}, in the model {pairs[0][1]!r}'
         ctx.check(R, not diff, tg.node, tg, f'{label}: subgraph {gname} at position {pos}', f'subgraph {gname} is quantized differently than when it stands alone - {detail}')
+
+
+# ------------------------------------ blockwise weights: operator replacement
+def rule_blockwise_replacement(ctx, R: str, independence: bool = False):
+  """A FULLY_CONNECTED whose weight is quantized BLOCKWISE is REPLACED (reshape
+  -> batch_matmul -> mul -> sum -> reshape [-> add] [-> relu]) by the real
+  emulated_subchannel transformation, reached through the real calibrate ->
+  plan -> instructions -> transform_graph. The result must be a well-formed
+  graph that computes the same dataflow: index ranges, unique names, one
+  producer, execution order, the chain wired from the FC input to the FC
+  output, element counts preserved by the reshapes, every other operator
+  untouched. With `independence` the subgraphs of a two-subgraph model are
+  compared with the same subgraphs quantized alone (C19)."""
+  from sa.consteval import Ext  # pylint: disable=g-import-not-at-top
+  from sa import consteval  # pylint: disable=g-import-not-at-top
+  title = ('blockwise FULLY_CONNECTED replacement: every subgraph comes out as when it stands alone' if independence else
+           'blockwise FULLY_CONNECTED replacement through the whole pipeline leaves a well-formed graph wired from the FC input to the FC output (bias / RELU / neighbours / two in a row / two subgraphs)')
+  rs = ctx.rule(R, title, floor=1)
+  tg = ctx.repo.func('transformation_performer:TransformationPerformer.transform_graph')
+  ctx.instance(R)
+  BO, TT = consteval.schema_enum('BuiltinOperator'), consteval.schema_enum('TensorType')
+  tv = lambda t: t.value if isinstance(t, Ext) else t
+  FC = lambda lab, i, o, act=0: (lab, 'FULLY_CONNECTED', i, o, {'fusedActivationFunction': act, 'keepNumDims': False})
+  plain = ([('px', 0, (1, 1, 8)), ('pw', 1, (3, 8)), ('pout', 0, (1, 1, 3))], [FC('pfc', [0, 1], [2])], [0], [2])
+  bias = ([('qx', 0, (1, 1, 4)), ('qw', 1, (2, 4)), ('qb', 1, (2,)), ('qout', 0, (1, 1, 2))], [FC('qfc', [0, 1, 2], [3])], [0], [3])
+  nobias = ([('nx', 0, (1, 1, 4)), ('nw', 1, (2, 4)), ('nout', 0, (1, 1, 2))], [FC('nfc', [0, 1, -1], [2])], [0], [2])
+  relu = ([('rx', 0, (1, 2, 4)), ('rw', 1, (3, 4)), ('rout', 0, (1, 2, 3))], [FC('rfc', [0, 1], [2], 1)], [0], [2])
+  mid = ([('mx', 0, (1, 1, 4)), ('mh', 0, (1, 1, 4)), ('mw', 1, (2, 4)), ('my', 0, (1, 1, 2)), ('mout', 0, (1, 1, 2))],
+         [('mabs1', 'abs', [0], [1]), FC('mfc', [1, 2], [3], 1), ('mabs2', 'abs', [3], [4])], [0], [4])
+  midb = ([('bx', 0, (1, 1, 4)), ('bh', 0, (1, 1, 4)), ('bw', 1, (2, 4)), ('bb', 1, (2,)), ('by', 0, (1, 1, 2)), ('bout', 0, (1, 1, 2))],
+          [('babs1', 'abs', [0], [1]), FC('bfc', [1, 2, 3], [4], 1), ('babs2', 'abs', [4], [5])], [0], [5])
+  two = ([('tx', 0, (1, 1, 4)), ('tw1', 1, (4, 4)), ('th', 0, (1, 1, 4)), ('tw2', 1, (2, 4)), ('tout', 0, (1, 1, 2))],
+         [FC('tfc1', [0, 1], [2], 1), FC('tfc2', [2, 3, -1], [4])], [0], [4])
+  fan = ([('fx', 0, (1, 1, 4)), ('fw1', 1, (2, 4)), ('fy1', 0, (1, 1, 2)), ('fw2', 1, (4, 4)), ('fy2', 0, (1, 1, 4)), ('fz', 0, (1, 1, 2))],
+         [FC('ffc1', [0, 1], [2]), FC('ffc2', [0, 3], [4], 1), ('fabs', 'abs', [2], [5])], [0], [5, 4])
+  after = ([('sx', 0, (1, 1, 4)), ('sw', 1, (2, 4)), ('sy', 0, (1, 1, 2)), ('sout', 0, (1, 1, 2))], [FC('sfc', [0, 1], [2], 1), ('ssm', 'sm', [2], [3])], [0], [3])
+  before = ([('ux', 0, (1, 1, 4)), ('uh', 0, (1, 1, 4)), ('uw', 1, (2, 4)), ('uout', 0, (1, 1, 2))], [('usm', 'sm', [0], [1]), FC('ufc', [1, 2], [3])], [0], [3])
+  both = ([('vx', 0, (1, 1, 4)), ('vh', 0, (1, 1, 4)), ('vw', 1, (2, 4)), ('vy', 0, (1, 1, 2)), ('vout', 0, (1, 1, 2))],
+          [('vsm1', 'sm', [0], [1]), FC('vfc', [1, 2], [3], 1), ('vsm2', 'sm', [3], [4])], [0], [4])
+  after2 = ([('wx', 0, (1, 1, 4)), ('ww', 1, (2, 4)), ('wy', 0, (1, 1, 2)), ('wz', 0, (1, 1, 2)), ('wout', 0, (1, 1, 2))],
+            [FC('wfc', [0, 1], [2], 1), ('wsm1', 'sm', [2], [3]), ('wsm2', 'sm', [3], [4])], [0], [4])
+  rules = [('.*', 'FULLY_CONNECTED', 'block')]
+  mixed_rules = rules + [('.*', 'sm', 'srq')]
+  mixed = {'followed by a static-range SOFTMAX': after, 'preceded by a static-range SOFTMAX': before, 'between two static-range SOFTMAX': both, 'followed by two static-range SOFTMAX': after2}
+  named = {'plain': plain, 'bias': bias, 'optional bias absent (-1)': nobias, 'RELU': relu, 'between two other operators, RELU': mid,
+           'between two other operators, bias and RELU': midb, 'two in a row': two, 'two on one input, one feeds a graph output': fan}
+  rs.exhaustive = True
+
+  def well_formed(m, pos, g, tag, is_mixed=False):
+    tensors, ops, gin, gout = g
+    sg = m.fields['subgraphs'][pos]
+    T, O = sg.fields['tensors'], sg.fields['operators']
+    codes, bufs = m.fields['operatorCodes'], m.fields['buffers']
+    problems = []
+    cnt = lambda shp: __import__('functools').reduce(lambda a, b: a * b, list(shp), 1)
+    const = set()
+    for i, t in enumerate(T):
+      b = t.fields['buffer']
+      if not isinstance(b, int) or not 0 <= b < len(bufs):
+        problems.append(f'tensor {t.fields["name"]}: buffer index {b!r} out of range')
+      elif b != 0 and bufs[b].fields['data'] is not None:
+        const.add(i)
+      if tv(t.fields['type']) not in TT.values():
+        problems.append(f'tensor {t.fields["name"]}: type {t.fields["type"]!r}')
+    names = [t.fields['name'] for t in T]
+    if len(set(names)) != len(names):
+      problems.append(f'tensor names not unique: {sorted(n for n in set(names) if names.count(n) > 1)}')
+    produced = set(sg.fields['inputs']) | const
+    producer = {}
+    for k, op in enumerate(O):
+      f = op.fields
+      oc = f['opcodeIndex']
+      if not isinstance(oc, int) or not 0 <= oc < len(codes):
+        problems.append(f'operator {k}: opcode index {oc!r} out of range')
+      if not isinstance(f['inputs'], list) or not isinstance(f['outputs'], list):
+        problems.append(f'operator {k}: operands not folded')
+        continue
+      for x in f['inputs']:
+        if x == -1:
+          continue
+        if not isinstance(x, int) or not 0 <= x < len(T):
+          problems.append(f'operator {k}: input {x!r} out of range')
+        elif x not in produced:
+          problems.append(f'operator {k} ({f["label"] or "new"}) reads {T[x].fields["name"]} before it is produced')
+      for x in f['outputs']:
+        if not isinstance(x, int) or not 0 <= x < len(T):
+          problems.append(f'operator {k}: output {x!r} out of range')
+          continue
+        if x in producer or x in const or x in sg.fields['inputs']:
+          problems.append(f'tensor {T[x].fields["name"]} has two producers / is a constant or an input that gets written')
+        producer[x] = k
+        produced.add(x)
+    for x in list(sg.fields['inputs']) + list(sg.fields['outputs']):
+      if not isinstance(x, int) or not 0 <= x < len(T):
+        problems.append(f'graph input / output {x!r} out of range')
+    for x in sg.fields['outputs']:
+      if x not in produced:
+        problems.append(f'graph output {x} is produced by no operator')
+    if (sg.fields['inputs'] != list(gin) or sg.fields['outputs'] != list(gout)) if not is_mixed else (len(sg.fields['inputs']) != len(gin) or len(sg.fields['outputs']) != len(gout)):
+      problems.append(f'graph inputs / outputs {sg.fields["inputs"]} / {sg.fields["outputs"]}; expected {list(gin)} / {list(gout)}')
+    if problems:
+      return problems
+    code_of = lambda op: tv(codes[op.fields['opcodeIndex']].fields['builtinCode'])
+    want_labels = [o[0] for o in ops if o[1] != 'FULLY_CONNECTED']
+    if [o.fields['label'] for o in O if o.fields['label'] is not None] != want_labels:
+      problems.append(f'original operators kept {[o.fields["label"] for o in O if o.fields["label"] is not None]}; expected {want_labels} (every blockwise FULLY_CONNECTED is replaced, nothing else is)')
+    by_label = {o.fields['label']: o for o in O if o.fields['label'] is not None}
+    used = set()
+    for o in ops:
+      lab, kind, ins, outs = o[:4]
+      if kind != 'FULLY_CONNECTED':
+        if is_mixed and kind == 'sm' and lab in by_label:
+          io = [tv(T[x].fields['type']) for x in by_label[lab].fields['inputs'] + by_label[lab].fields['outputs']]
+          if any(x != TT['INT8'] for x in io):
+            problems.append(f'static-range operator {lab} reads / writes tensors of types {io}; expected INT8 (C03)')
+        if not is_mixed and lab in by_label and (by_label[lab].fields['inputs'], by_label[lab].fields['outputs']) != (list(ins), list(outs)):
+          problems.append(f'operator {lab} now reads {by_label[lab].fields["inputs"]} / writes {by_label[lab].fields["outputs"]}; expected {list(ins)} / {list(outs)}')
+        continue
+      has_bias = len(ins) > 2 and ins[2] != -1
+      act = o[4]['fusedActivationFunction']
+      want = ['RESHAPE', 'BATCH_MATMUL', 'MUL', 'SUM', 'RESHAPE'] + (['ADD'] if has_bias else []) + (['RELU'] if act == 1 else [])
+      cur, chain = ins[0], []
+      if is_mixed:   # the FC may read its input through an inserted DEQUANTIZE
+        for q in O:
+          if q.fields['label'] is None and code_of(q) == BO['DEQUANTIZE'] and q.fields['inputs'] == [ins[0]] and any(
+              r.fields['label'] is None and code_of(r) == BO['RESHAPE'] and r.fields['inputs'][0] == q.fields['outputs'][0] for r in O):
+            cur = q.fields['outputs'][0]
+      for _ in range(len(want) + 2):
+        nxt = [k for k, q in enumerate(O) if q.fields['label'] is None and k not in used and q.fields['inputs'] and q.fields['inputs'][0] == cur]
+        if not nxt:
+          break
+        k = nxt[0]
+        used.add(k)
+        chain.append(k)
+        cur = O[k].fields['outputs'][0]
+        if cur == outs[0]:
+          break
+      got = [next((n for n, v in BO.items() if v == code_of(O[k])), '?') for k in chain]
+      if got != want or cur != outs[0]:
+        problems.append(f'{lab}: replaced by the chain {got} ending in tensor {T[cur].fields["name"]}; expected {want} ending in {T[outs[0]].fields["name"]}')
+        continue
+      if chain != list(range(chain[0], chain[0] + len(chain))):
+        problems.append(f'{lab}: the replacement operators are not contiguous: positions {chain}')
+      wt = T[ins[1]]
+      wdata = bufs[wt.fields['buffer']].fields['data']
+      if O[chain[1]].fields['inputs'][1:] != [ins[1]] or tv(wt.fields['type']) != TT['INT4'] or wdata is None or (isinstance(wdata, str) and wdata.startswith('float-bytes')):
+        problems.append(f'{lab}: BATCH_MATMUL must read the weight {wt.fields["name"]} as an INT4 constant with rewritten data (reads {O[chain[1]].fields["inputs"]}, type {wt.fields["type"]!r})')
+      if cnt(wt.fields['shape']) != cnt(tspec_shape(tensors[ins[1]])):
+        problems.append(f'{lab}: weight {wt.fields["name"]} has shape {list(wt.fields["shape"])}: element count differs from the original {tspec_shape(tensors[ins[1]])}')
+      sc = O[chain[2]].fields['inputs'][1] if len(O[chain[2]].fields['inputs']) == 2 else None
+      if sc not in const or tv(T[sc].fields['type']) != TT['FLOAT32']:
+        problems.append(f'{lab}: MUL must read a FLOAT32 scale constant (reads {O[chain[2]].fields["inputs"]})')
+      ax = O[chain[3]].fields['inputs'][1] if len(O[chain[3]].fields['inputs']) == 2 else None
+      if ax not in const or tv(T[ax].fields['type']) != TT['INT32']:
+        problems.append(f'{lab}: SUM must read an INT32 axis constant (reads {O[chain[3]].fields["inputs"]})')
+      for k in (chain[0], chain[4]):
+        a, b = T[O[k].fields['inputs'][0]].fields['shape'], T[O[k].fields['outputs'][0]].fields['shape']
+        shp = O[k].fields['inputs'][1] if len(O[k].fields['inputs']) == 2 else None
+        if shp not in const or tv(T[shp].fields['type']) != TT['INT32']:
+          problems.append(f'{lab}: RESHAPE at {k} must read an INT32 shape constant (reads {O[k].fields["inputs"]})')
+        if not isinstance(a, (list, tuple)) or not isinstance(b, (list, tuple)) or cnt(a) != cnt(b):
+          problems.append(f'{lab}: RESHAPE at {k} turns shape {a!r} into {b!r}: element counts differ')
+      if has_bias and O[chain[5]].fields['inputs'][1:] != [ins[2]]:
+        problems.append(f'{lab}: ADD must read the bias {T[ins[2]].fields["name"]} (reads {O[chain[5]].fields["inputs"]})')
+      for k in chain[1:4]:
+        a, b = T[O[k].fields['inputs'][0]].fields['shape'], T[O[k].fields['outputs'][0]].fields['shape']
+        if not isinstance(a, (list, tuple)) or not isinstance(b, (list, tuple)) or len(a) != 4 or len(b) != 4 or list(a)[0] != list(b)[0]:
+          problems.append(f'{lab}: operator at {k}: intermediate shapes {a!r} -> {b!r} are not 4-d with one batch')
+    stray = [k for k, q in enumerate(O) if q.fields['label'] is None and k not in used and not (is_mixed and code_of(q) in (BO['QUANTIZE'], BO['DEQUANTIZE']))]
+    if stray:
+      problems.append(f'new operators outside any replacement chain at positions {stray}')
+    return problems
+
+  def tspec_shape(t):
+    return list(t[2]) if len(t) > 2 else ([2, 2] if t[1] == 1 else [1, 2])
+  alone, refused = {}, []
+  for name, g in named.items():
+    m, why = _pipeline_multi(ctx, R, [g], rules)
+    if m is None:
+      # C01 allows a refusal (quantize() raises); only an undecided run is a problem of the analysis
+      ctx.check(R, why.startswith('refused'), tg.node, tg, f'case "{name}"', why)
+      if why.startswith('refused'):
+        refused.append(name)
+      continue
+    alone[name] = _subgraph_fingerprint(m, 0)
+    if not independence:
+      pr = well_formed(m, 0, g, name)
+      ctx.check(R, not pr, tg.node, tg, f'case "{name}": operators {[(o.fields["label"] or "new") for o in m.fields["subgraphs"][0].fields["operators"]]}', '; '.join(pr[:3]))
+  if not independence:
+    for name, g in mixed.items():
+      m, why = _pipeline_multi(ctx, R, [g], mixed_rules)
+      if m is None:
+        ctx.check(R, why.startswith('refused'), tg.node, tg, f'case "{name}"', why)
+        if why.startswith('refused'):
+          refused.append(name)
+        continue
+      pr = well_formed(m, 0, g, name, True)
+      ctx.check(R, not pr, tg.node, tg, f'case "{name}": operators {[(o.fields["label"] or "new") for o in m.fields["subgraphs"][0].fields["operators"]]}', '; '.join(pr[:3]))
+  for combo in (('plain', 'RELU'), ('two in a row', 'between two other operators, RELU'), ('two on one input, one feeds a graph output', 'plain', 'two in a row')):
+    if any(c in refused for c in combo):
+      continue
+    gs = [named[c] for c in combo]
+    m, why = _pipeline_multi(ctx, R, gs, rules)
+    label = f'model of subgraphs {combo}'
+    if m is None:
+      ctx.check(R, False, tg.node, tg, label, f'every subgraph is accepted alone, the model is not: {why}')
+      continue
+    for pos, c in enumerate(combo):
+      if independence:
+        want = alone.get(c)
+        if want is None:
+          continue
+        got = _subgraph_fingerprint(m, pos)
+        diff = [k for k in want if want[k] != got[k]]
+        detail = ''
+        if diff:
+          k = diff[0]
+          pairs = [(a, b) for a, b in zip(want[k], got[k]) if a != b] if isinstance(want[k], list) and len(want[k]) == len(got[k]) else [(want[k], got[k])]
+          detail = f'{k}: alone {pairs[0][0]!r}, in the model {pairs[0][1]!r}'
+        ctx.check(R, not diff, tg.node, tg, f'{label}: subgraph "{c}" at position {pos}', f'quantized differently than when it stands alone - {detail}')
+      else:
+        pr = well_formed(m, pos, named[c], c)
+        ctx.check(R, not pr, tg.node, tg, f'{label}: subgraph "{c}" at position {pos}', '; '.join(pr[:3]))
+  ctx.sample(R, {'cases': list(named) + ([] if independence else list(mixed)), 'refused (allowed by C01)': refused, 'models': 3})
 
 
 # ------------------------------------------------------- error discipline
